@@ -139,10 +139,12 @@ func (d *Decimal) setString(c *Context, s string) (Condition, error) {
 	if consumed {
 		isNaN = true
 	}
-	s, consumed = consumePrefix(s, "snan")
-	if consumed {
-		isNaN = true
-		d.Form = NaNSignaling
+	if !isNaN {
+		s, consumed = consumePrefix(s, "snan")
+		if consumed {
+			isNaN = true
+			d.Form = NaNSignaling
+		}
 	}
 	if isNaN {
 		if s != "" {
